@@ -102,7 +102,14 @@ pub fn skill_trace(difficulty: &Difficulty, map: &Beatmap) -> Result<TaikoSkillT
         difficulty.get_mods(),
     );
 
-    let n_processed = n_diff_objects.saturating_sub(1);
+    // as `DifficultyValues::calculate` does: once all hits are passed, every difficulty object is processed
+    let n_processed = if difficulty.get_passed_objects()
+        >= map.hit_objects.iter().filter(|h| h.is_circle()).count()
+    {
+        objects.objects.len()
+    } else {
+        n_diff_objects.saturating_sub(1)
+    };
 
     let records = objects
         .iter()
